@@ -219,17 +219,34 @@ def c08_core(tier, wd):
 
 # ------------------------------------------------------------------ C07
 
+def c07_viols(tier, wd, prop):
+    """C11: 'carries ML-KEM ciphertexts bound into the tag' -- the hybridised cases of Tamper.tla whose actions
+    touch the ML-KEM ciphertexts, judged for another property's check."""
+    sub = os.path.join(wd, "tamper")
+    os.makedirs(sub, exist_ok=True)
+    viols, cov = c07_core(tier, sub, only_hyb_E=True)
+    return [dict(v, p=[prop], hist=0, line=0) for v in viols], {"mlkem_binding_mutants": cov["evaluations"]}
+
+
 def c07(tier):
     t0 = time.time()
     prop = "C07"
     wd = workdir(prop)
     build_harness("default")
+    viols, cov = c07_core(tier, wd)
+    return finish(prop, tier, t0, viols, cov)
+
+
+def c07_core(tier, wd, only_hyb_E=False):
+    prop = "C07"
     cfg = os.path.join(wd, "Tamper.cfg")
     write_cfg(cfg, {"NTraps": 2})
     g = run_module("Tamper.tla", cfg, wd, "gen")
     if "GEN-DONE" not in g["out"]:
         raise ToolError("Tamper gen failed (the symbolic model admits a malleation):\n" + g["out"][-3000:])
     cases = tagged(g["out"], "CASE")
+    if only_hyb_E:
+        cases = [c for c in cases if c["hyb"] and len(c["actions"]) == 1 and c["actions"][0]["a"] in ("corrupt_E", "swap_E", "splice_E")]
     cases_path = os.path.join(wd, "cases.ndjson")
     with open(cases_path, "w") as f:
         for c in cases:
@@ -256,6 +273,9 @@ def c07(tier):
     for r in twin[:3]:
         print("MODEL-DRIFT Tamper: byte-level twin and model disagree on identity: " + json.dumps(r["actions"]))
     extra = {}
+    if only_hyb_E:
+        cov = {"evaluations": sum(r["total"] for r in recs), "distinct_nontrivial": len(cases), "samples": recs[:1]}
+        return viols, cov
     # the PKE / encrypted-metadata half of the statement is exercised by the Pke satellite's tamper classes
     try:
         import sat_pke
@@ -278,7 +298,7 @@ def c07(tier):
         "states": max(1, c["distinct"]), "transitions": max(1, c["generated"]),
     }
     cov.update(extra)
-    return finish(prop, tier, t0, viols, cov)
+    return viols, cov
 
 
 # ------------------------------------------------------------------ C19 (and the C16 driver)
